@@ -76,9 +76,18 @@ def encodeKey (k : Key) : Json := Json.arr (k.map fun p => J.obj [("n", J.hex p.
 
 def keyStr (k : Key) : String := String.intercalate "," (k.map fun p => p.1.toHex ++ ":" ++ toString p.2)
 
+/-- a key with a policy's cursor scope in front (`scopeTag i`) is rendered as scope "policy/i:" + the object list -/
+def splitScope (k : Key) : String × Key :=
+  match k with
+  | (([0] : Str), g) :: rest => (s!"policy/{g - 1}:", rest)
+  | _ => ("", k)
+
 def encodeLb (lb : List (Key × Nat)) : Json :=
   let sorted := (lb.toArray.qsort fun a b => keyStr a.1 < keyStr b.1).toList
-  Json.arr (sorted.map fun p => J.obj [("key", encodeKey p.1), ("c", J.nat p.2)]).toArray
+  Json.arr (sorted.map fun p =>
+    let sk := splitScope p.1
+    if sk.1 == "" then J.obj [("key", encodeKey p.1), ("c", J.nat p.2)]
+    else J.obj [("key", encodeKey sk.2), ("c", J.nat p.2), ("scope", Json.str sk.1)]).toArray
 
 def encodePop : PopOut → Json
   | .picked n g => J.obj [("ok", J.obj [("n", J.hex n), ("gen", J.nat g)])]
@@ -155,7 +164,9 @@ def doRun (a : Json) : Except String Json := do
   let impl : Option (Array Json) := match J.optObj a "impl" with
     | some i => i.getArr?.toOption
     | none => none
-  let mut acc : Acc := { s := init, low := [], implLow := [], implIdx := [], outs := [] }
+  -- does the code give every dispatch policy its own cursor scope? (observed by the harness on the real cursor keys)
+  let policyScopes := (J.getBool a "policy_scopes").toOption.getD false
+  let mut acc : Acc := { s := initScoped policyScopes, low := [], implLow := [], implIdx := [], outs := [] }
   let mut idx := 0
   for j in ops do
     let h ← decodeOp acc.s j
